@@ -103,7 +103,7 @@ def markerB (m : UInt8) (a : Args) (t : System) : Bool :=
   !t.ssh.configFile.contains m && !t.ssh.privateKeyPath.contains m &&
   t.extra.all (fun x => !x.contains m) && t.override.all (fun x => !x.contains m)
 
-inductive Err | badOption | keyFile | knownHostsFile
+inductive Err | badOption | keyFile | knownHostsFile | fileNotFound | spawn
   deriving DecidableEq, Repr
 
 /-- `(*System).Open`: pre-checks on the key, then the spawn of `bin argv…`.
@@ -114,6 +114,53 @@ def systemOpen (a : Args) (t : System) (keyLoads : Bool) : Except Err (Bytes × 
     else if !keyLoads then .error .keyFile
     else .ok (t.bin, systemArgv a t)
   else .ok (t.bin, systemArgv a t)
+
+/-- `Open` including the spawn itself: `binRuns` = `OpenBin` can be started with a pty
+(environment); a binary that cannot be started is an error of `Open`, nothing is connected. -/
+def systemOpenSpawn (a : Args) (t : System) (keyLoads binRuns : Bool) : Except Err (Bytes × List Bytes) :=
+  match systemOpen a t keyLoads with
+  | .ok r => if binRuns then .ok r else .error .spawn
+  | .error e => .error e
+
+/-! ## the ssh file options (`driver/options/transportssh.go`) -/
+
+/-- how a known-hosts / config file is asked for -/
+inductive FileOpt
+  | none                                   -- option not given
+  | path (p : Bytes) (found : Bool)        -- `WithSSH…File(p)`; `found` = `util.ResolveFilePath` succeeds (environment)
+  | system (homeHas etcHas : Bool)         -- `WithSSH…FileSystem()`; which of `~/.ssh/…`, `/etc/ssh/…` exist (environment)
+  deriving DecidableEq, Repr
+
+/-- the `SSHArgs` field the option leaves behind, or the error `NewSSHArgs` (hence `NewDriver`)
+returns: an unresolvable explicit path is `ErrFileNotFoundError`; the system variant takes the
+user's file first, the system-wide one second, and is `ErrBadOption` when neither exists. -/
+def resolveFileOpt (home etc : Bytes) : FileOpt → Except Err Bytes
+  | .none => .ok []
+  | .path p found => if found then .ok p else .error .fileNotFound
+  | .system homeHas etcHas => if homeHas then .ok home else if etcHas then .ok etc else .error .badOption
+
+/-! ## what the channel is given for in-channel authentication (`Transport.InChannelAuthData`) -/
+
+inductive TransportKind | system | standard
+  deriving DecidableEq, Repr
+
+inductive InChanType | unsupported | ssh
+  deriving DecidableEq, Repr
+
+structure InChanData where
+  type : InChanType
+  user : Bytes
+  password : Bytes
+  passphrase : Bytes
+  deriving DecidableEq, Repr
+
+/-- the system transport authenticates "in channel" (the channel types the password at ssh's own
+prompt on the pty); the standard transport does not implement in-channel auth, the channel gets
+no credential at all -/
+def inChannelAuthData (k : TransportKind) (a : Args) (s : SSHArgs) : InChanData :=
+  match k with
+  | .standard => { type := .unsupported, user := [], password := [], passphrase := [] }
+  | .system => { type := .ssh, user := a.user, password := a.password, passphrase := s.privateKeyPassPhrase }
 
 /-! ## standard (crypto/ssh) transport -/
 
